@@ -68,38 +68,4 @@ theorem filterE_ok {α : Type} (f : α → Except String Bool) (g : α → Bool)
   | cons x xs ih =>
     simp only [filterE, h x, ih, List.filter_cons]
 
-/-- `[f(x) for x in xs]` where `f` may raise: evaluated left to right, the first exception ends the comprehension -/
-def mapE {α β : Type} (f : α → Except String β) : List α → Except String (List β)
-  | [] => .ok []
-  | x :: xs =>
-    match f x with
-    | .error e => .error e
-    | .ok y =>
-      match mapE f xs with
-      | .error e => .error e
-      | .ok ys => .ok (y :: ys)
-
-/-- a comprehension whose element never raises is `List.map` -/
-theorem mapE_ok {α β : Type} (f : α → Except String β) (g : α → β) (h : ∀ x, f x = .ok (g x)) :
-    ∀ l : List α, mapE f l = .ok (l.map g) := by
-  intro l
-  induction l with
-  | nil => rfl
-  | cons x xs ih => simp only [mapE, h x, ih, List.map_cons]
-
-/-- `xs[-1]`: `IndexError` on the empty list -/
-def getLast {α : Type} : List α → Except String α
-  | [] => .error "ERR:Index"
-  | [x] => .ok x
-  | _ :: y :: ys => getLast (y :: ys)
-
-theorem getLast_eq {α : Type} (l : List α) :
-    getLast l = match l.getLast? with | some x => .ok x | none => .error "ERR:Index" := by
-  induction l with
-  | nil => rfl
-  | cons x xs ih =>
-    cases xs with
-    | nil => rfl
-    | cons y ys => rw [getLast, ih]; simp [List.getLast?_cons_cons]
-
 end GV.Py
